@@ -115,7 +115,7 @@ def F(w, nid, a, name, pool=None):
         return None
     if pool is None and "pool" in a:
         pool = [w.sources[s] for s in a["pool"]]
-    return w.fn(spec["k"], "%s.%s" % (nid, name), spec.get("m", 2), spec.get("r", 0), pool)
+    return w.fn(spec["k"], "%s.%s" % (nid, name), spec.get("m", 2), spec.get("r", 0), pool, spec)
 
 
 def P(w, a, key="pool"):
@@ -259,9 +259,9 @@ R("group_by_until", 1, lambda c: {"f": c.fn("key"), "g": c.rng.choice([None, c.f
 R("group_by_merge", 1, lambda c: {"f": c.fn("key")},
   lambda w, n, a, i: i[0].pipe(ops.group_by(F(w, n, a, "f")), ops.flat_map(lambda g: g.pipe(ops.to_list()))), {"cb"})
 R("partition0", 1, lambda c: {"f": c.fn("pred"), "which": c.rng.randrange(2)},
-  lambda w, n, a, i: i[0].pipe(ops.partition(F(w, n, a, "f")))[a["which"]], {"cb"})
+  lambda w, n, a, i: i[0].pipe(ops.partition(F(w, n, a, "f")))[a["which"]], {"cb", "multicast"})
 R("partition_indexed0", 1, lambda c: {"f": c.fn("pred_i"), "which": c.rng.randrange(2)},
-  lambda w, n, a, i: i[0].pipe(ops.partition_indexed(F(w, n, a, "f")))[a["which"]], {"cb"})
+  lambda w, n, a, i: i[0].pipe(ops.partition_indexed(F(w, n, a, "f")))[a["which"]], {"cb", "multicast"})
 
 # sequential composition with pool sources
 R("repeat", 1, lambda c: {"n": c.rng.randrange(0, 4)}, lambda w, n, a, i: i[0].pipe(ops.repeat(a["n"])), ())
@@ -269,6 +269,10 @@ R("retry", 1, lambda c: {"n": c.rng.randrange(1, 4)}, lambda w, n, a, i: i[0].pi
 R("catch_handler", 1, lambda c: {"pool": c.pool(2), "f": c.fn("inner")},
   lambda w, n, a, i: i[0].pipe(ops.catch(F(w, n, a, "f"))), {"cb", "pool"})
 R("while_do", 1, lambda c: {"f": {"k": "cond", "m": c.rng.randrange(0, 4)}}, lambda w, n, a, i: i[0].pipe(ops.while_do(F(w, n, a, "f"))), {"cb", "stateful"})
+R("while_do_time", 1, lambda c: {"f": {"k": "cond_time", "T": c.rng.choice(range(150, 700, 50)), "after": c.rng.random() < 0.5}},
+  lambda w, n, a, i: i[0].pipe(ops.start_with("w"), ops.while_do(F(w, n, a, "f")), ops.take(6)), {"cb"})
+R("do_while_time", 1, lambda c: {"f": {"k": "cond_time", "T": c.rng.choice(range(150, 700, 50)), "after": c.rng.random() < 0.5}},
+  lambda w, n, a, i: i[0].pipe(ops.start_with("w"), ops.do_while(F(w, n, a, "f")), ops.take(6)), {"cb"})
 R("do_while", 1, lambda c: {"f": {"k": "cond", "m": c.rng.randrange(0, 3)}}, lambda w, n, a, i: i[0].pipe(ops.do_while(F(w, n, a, "f"))), {"cb", "stateful"})
 
 # merging / switching through a mapper into the pool
@@ -294,6 +298,16 @@ R("publish_value_ref_count", 1, lambda c: {"v": vt.gen_value(c.rng, 0.5)}, lambd
 R("publish_mapper", 1, lambda c: {"f": c.fn("ident")}, lambda w, n, a, i: i[0].pipe(ops.publish(F(w, n, a, "f"))), {"multicast", "cb"})
 R("replay_mapper", 1, lambda c: {"f": c.fn("ident"), "n": c.rng.choice([None, 1])},
   lambda w, n, a, i: i[0].pipe(ops.replay(buffer_size=a["n"], mapper=F(w, n, a, "f"), scheduler=w.s)), {"multicast", "cb", "time"})
+
+# connectables (need connect(); used by C24/C44 only)
+R("publish", 1, lambda c: {}, lambda w, n, a, i: i[0].pipe(ops.publish()), {"multicast", "connectable"})
+R("replay", 1, lambda c: {"n": c.rng.choice([None, 1, 2]), "win": c.rng.choice([None, None, 50])},
+  lambda w, n, a, i: i[0].pipe(ops.replay(buffer_size=a["n"], window=a["win"], scheduler=w.s)), {"multicast", "connectable", "time"})
+R("publish_value", 1, lambda c: {"v": vt.gen_value(c.rng, 0.5)}, lambda w, n, a, i: i[0].pipe(ops.publish_value(V(a["v"]))), {"multicast", "connectable"})
+R("multicast_factory_mapper", 1, lambda c: {"f": c.fn("ident")},
+  lambda w, n, a, i: i[0].pipe(ops.multicast(subject_factory=lambda s: rx.subject.Subject(), mapper=F(w, n, a, "f"))), {"multicast", "cb"})
+R("publish_value_mapper", 1, lambda c: {"v": vt.gen_value(c.rng, 0.5), "f": c.fn("ident")},
+  lambda w, n, a, i: i[0].pipe(ops.publish_value(V(a["v"]), F(w, n, a, "f"))), {"multicast", "cb"})
 
 # scheduler hopping / resources
 R("observe_on", 1, lambda c: {}, lambda w, n, a, i: i[0].pipe(ops.observe_on(w.s)), {"time"})
@@ -364,7 +378,7 @@ R("rx.using", 1, lambda c: {"f": c.fn("action")},
 def gen_program(ctx, depth, allow=None, max_sources=4, nary_p=0.3):
     """Random pipeline of `depth` operator nodes over freshly generated sources."""
     rng = ctx.rng
-    names = [n for n, r in sorted(ROWS.items()) if allow is None or allow(r)]
+    names = [n for n, r in sorted(ROWS.items()) if "connectable" not in r.tags and (allow is None or allow(r))]
     unary = [n for n in names if ROWS[n].arity == 1]
     nary = [n for n in names if ROWS[n].arity != 1]
     node = ctx.new_source()
